@@ -129,6 +129,41 @@ func stressMain(args []string) {
 				probes = append(probes, probe{"GET", pre + id, fmt.Sprintf("%d:%s", w.Code, w.Body.String())})
 			}
 		}
+		// hooks, custom fallback chains and handlers that panic / abort / record errors: every shape in three has them
+		if shape%3 == 2 {
+			r.OnPanic = func(c *rux.Context) { c.SetStatus(500); c.WriteString("recovered") }
+			r.OnError = func(c *rux.Context) { c.SetHeader("X-Errors", fmt.Sprint(len(c.Errors))) }
+			r.NotFound(func(c *rux.Context) { c.Next() }, func(c *rux.Context) { c.Text(404, "custom-404:"+c.Req.URL.Path) })
+			r.NotAllowed(func(c *rux.Context) { c.Text(405, "custom-405") })
+		}
+		r.GET("/pn/{id}", func(c *rux.Context) {
+			if shape%3 == 2 {
+				panic("boom-" + c.Param("id"))
+			}
+			c.Text(200, "no-panic:"+c.Param("id"))
+		})
+		r.GET("/ab/{id}", func(c *rux.Context) { c.Text(200, "not-reached") }, func(c *rux.Context) { c.AbortWithStatus(403, "denied-"+c.Param("id")) })
+		r.GET("/er/{id}", func(c *rux.Context) {
+			c.AddError(errors.New(c.Param("id")))
+			c.Text(200, "err:"+c.FirstError().Error())
+		})
+		for _, id := range []string{"1", "2"} {
+			probes = append(probes, probe{"GET", "/pn/" + id, ""}, probe{"GET", "/ab/" + id, ""}, probe{"GET", "/er/" + id, ""})
+		}
+		// what every request gets when it is alone (the fixed expectations above must agree with it)
+		for k, p := range probes {
+			w := httptest.NewRecorder()
+			r.ServeHTTP(w, httptest.NewRequest(p.m, p.p, nil))
+			solo := fmt.Sprintf("%d:%s", w.Code, w.Body.String())
+			if al := w.Header().Get("Allow"); al != "" {
+				solo = fmt.Sprintf("%d[%s]:%s", w.Code, al, w.Body.String())
+			}
+			if p.want != "" && p.want != solo && shape%3 != 2 {
+				atomic.AddInt64(&wrong, 1)
+				firstWrong.Store(fmt.Sprintf("shape=%d %s %s alone got=%q want=%q", shape, p.m, p.p, solo, p.want))
+			}
+			probes[k].want = solo
+		}
 		// the read-only inspection API is used while requests are served (a debug endpoint, a metrics scraper)
 		stop := make(chan struct{})
 		var insp sync.WaitGroup
